@@ -6,6 +6,7 @@
 #include <algorithm>
 #include <veriblock/pop/consts.hpp>
 #include <veriblock/pop/validation_state.hpp>
+#include <veriblock/pop/slice.hpp>
 #include <veriblock/pop/write_stream.hpp>
 #include "src/pop/write_stream.cpp"
 extern "C" int g_split_verdict;   // arbitrary verdict of the abstracted containsSplit
